@@ -133,7 +133,8 @@ def stepLine (st : St) (line : String) : St × String :=
                       xmit := ← kvBytes? ws "xmit", reft := ← kvBytes? ws "reft",
                       untrusted := ← (kv? ws "U").bind parseFields, auth := ← (kv? ws "A").bind parseFields,
                       enc := ← (kv? ws "E").bind parseFields, cookie := cookie,
-                      encw := ← kvNat? ws "encw", mac := ← kvNat? ws "mac" })
+                      encw := ← kvNat? ws "encw", mac := ← kvNat? ws "mac",
+                      draftOk := (kv? ws "dok") != some "0" })
       | none => none
     match envReq with
     | none => (st, "bad-op")
